@@ -48,6 +48,7 @@ var keyProps = map[string][]string{
 	"failed-confirm-left-trace":        {"C04", "C05"},
 	"undo-todo-wrong":                  {"C04"},
 	"ledger-race-not-serialisable":     {"C04"},
+	"dump-incomplete":                  {"C04"},
 	"tip-":                             {"C04"}, "path-": {"C04"}, "stored-set": {"C04", "C05"}, "query-block-failed": {"C04"}, "block-vs-header": {"C04", "C05"},
 	"height-": {"C04"}, "block-above-trunk": {"C04"}, "intrunk-flag": {"C04"}, "next-link": {"C04"}, "tx-": {"C04"}, "branch-tips": {"C04"},
 	"tip-snapshot-": {"C18"},
